@@ -85,7 +85,8 @@ def _funcprime(base, max_count, num_reserved, uint_max):
     Numba function used to determine the base of the log needed.
     """
     M = float64(max_count) - float64(num_reserved)
-    return uint_max * base ** (uint_max - num_reserved) - M
+    K = float64(uint_max) - float64(num_reserved)
+    return K * base ** (K - 1.0) - M
 
 
 @njit(float64(uint64, uint32, uint32))
@@ -115,7 +116,13 @@ def _find_base(max_count, num_reserved, uint_max):
         If the base is 1.0
 
     """
-    base = float64(np.exp(np.log(max_count) / (uint_max - num_reserved)))
+    M = float64(max_count) - float64(num_reserved)
+    K = float64(uint_max) - float64(num_reserved)
+    if K < 2.0 or M <= K:
+        raise ValueError("No base > 1.0 exists. Raise max_count or lower num_reserved")
+    # Start to the right of the non-trivial root of the convex _func so that
+    # Newton's method converges monotonically
+    base = float64(np.exp(np.log(M) / (K - 1.0)))
 
     for i in range(200):
         base = base - _func(base, max_count, num_reserved, uint_max) / _funcprime(
